@@ -42,11 +42,11 @@ HasRedef(s, ops) ==
     IF ops = <<>> THEN FALSE
     ELSE IF ~Enabled(s, Head(ops)) THEN FALSE
     ELSE IsRedefinition(s, Head(ops)) \/ HasRedef(Apply(s, Head(ops)), Tail(ops))
-\* The code handles such a statement by indexing its container table with the marker id (undefined
-\* behaviour).  From there on an execution is judged only on what the statement was about: it must
-\* not crash, and every path through a redefined entry must find it and read it back.  That is one
-\* finding, independent of the others (the rest of such an execution is not compared).
-RedefKey == << [w |-> "LookupIffDefinedAlongChain", q |-> "redefine-after-delete", x |-> "the redefined entry is found and reads back"] >>
+\* The pinned code handled such a statement by indexing its container table with the marker id
+\* (undefined behaviour, fixed since).  A crash of an execution that contains such a statement is
+\* attributed to it; everything else is judged like any other execution: the redefined entry is
+\* found, reads back, and is one of the own entries count/select enumerate.
+RedefKey == << [w |-> "LookupIffDefinedAlongChain", q |-> "redefine-after-delete", x |-> "the load completes and the redefined entry is found"] >>
 
 \* ---- a row of the query table ------------------------------------------------------------------
 CfgIs(o, s, id) == IF id = 0 THEN o.null ELSE (~o.null /\ o.at = NodePath(s, id))
@@ -77,7 +77,7 @@ RowFails(s, e) ==
                     \o F("ReadBack", "isText", e.ist # QIsText(s, r), ToString(QIsText(s, r)))
                     \o F("ReadBack", "isArray", e.isa # QIsArray(s, r), ToString(QIsArray(s, r)))
                     \o F("ReadBack", "isClass", e.isc # QIsClass(s, r), ToString(QIsClass(s, r)))
-                    \o F("ReadBack", "getNumber", n.val.t = "n" /\ e.num # n.val, ToString(n.val))
+                    \o F("ReadBack", "getNumber", IsNumVal(n.val) /\ e.num # n.val, ToString(n.val))
                     \o F("ReadBack", "getText", n.val.t = "s" /\ e.txt # n.val, ToString(n.val))
                     \o F(IF n.app THEN "AppendExtendsInherited" ELSE "ReadBack", "getArray", n.val.t = "a" /\ e.arr # n.val, ToString(n.val))
                     \o F("InheritsFromIsBase", "inheritsFrom", ~(CfgIs(e.inh, s, n.base) \/ (n.fz /\ e.inh.null)), PathStr(s, n.base))
@@ -89,14 +89,6 @@ RowFails(s, e) ==
                          /\ IF n.ofz THEN SeqSet(ObsSel(e)) # SeqSet(ExpSel(s, r)) \/ Len(e.sel) # e.cnt
                             ELSE ObsSel(e) # ExpSel(s, r),
                          ToString(ExpSel(s, r)))
-
-PathTouchesRad(s, path) ==
-    \E k \in 1..Len(path) : LET r == Lookup(s, SubSeq(path, 1, k)) IN r > 0 /\ s.nodes[r].rad
-RedefRowFails(s, e) ==
-    IF PathTouchesRad(s, e.path)
-       /\ \E i \in 1..Len(RowFails(s, e)) :
-             RowFails(s, e)[i].w \in {"LookupIffDefinedAlongChain", "ReadBack", "MergeOnReopen", "AppendExtendsInherited", "DeleteHides"}
-    THEN RedefKey ELSE <<>>
 
 \* ---- recording -------------------------------------------------------------------------------
 Count(t, k) == IF k \in DOMAIN t THEN t[k] ELSE 0
@@ -163,7 +155,7 @@ Consume ==
                 /\ UNCHANGED <<st, pend, cyc, redef, dead, nops>>
                 /\ IF cyc THEN UNCHANGED <<seen, bad, tally, nrows>>     \* a cyclic config cannot be looked up
                    ELSE /\ nrows' = nrows + 1
-                        /\ Record(IF redef THEN RedefRowFails(st, e) ELSE RowFails(st, e), e.id)
+                        /\ Record(RowFails(st, e), e.id)
          [] OTHER -> UNCHANGED <<st, pend, cyc, redef, asked, dead, seen, bad, tally, nops, nrows>>
 
 Finish ==
